@@ -56,6 +56,20 @@ def args_probe(mode):
     pv1 = bytes(pvdef.as_bytes())
     pv2 = bytes(pvdef.as_bytes())
     pv3 = bytes(SynthDef('pv', ns['fa'], None, None, copy.deepcopy(vs)).as_bytes())
+    # the file written by store() is the same definition
+    pv4 = pv1
+    try:
+        import os, tempfile
+        tmpd = tempfile.mkdtemp(dir=os.environ.get('HOME'))
+        pvdef.store(dir=tmpd)
+        files = [f for f in os.listdir(tmpd) if f.startswith('pv.')]
+        pv4 = open(os.path.join(tmpd, files[0]), 'rb').read() if files else b'no file written'
+        pv2 = bytes(SynthDef('pv', ns['fa'], None, None, vs).as_bytes()) if pv4 == pv1 else pv2
+    except Exception as e:
+        problems.append(f'store() of a definition with variants raised {type(e).__name__}: {e}'[:200])
+    if pv4 != pv1:
+        problems.append(f'the file written by store() differs from as_bytes() of the same definition with five variants '
+                        f'({len(pv4)} vs {len(pv1)} bytes)')
     if not (pv1 == pv2 == pv3):
         problems.append(f'a definition with five variants serialised twice / rebuilt from equal arguments gives different bytes '
                         f'({len(pv1)}, {len(pv2)}, {len(pv3)} bytes)')
@@ -142,7 +156,8 @@ def args_probe(mode):
         exec("def fq(a=None, c=3):\n    Out.kr(0, SinOsc.kr(c) * (a if a is not None else 1))\n", ns)
         q0 = bytes(SynthDef('pq', ns['fq']).as_bytes())
         try:
-            SynthDef('pq', ns['fq'], metadata={'specs': {'a': [0, 1, 'lin', 0, 0.25]}}).add()
+            from sc3.synth.spec import spec as _spec
+            SynthDef('pq', ns['fq'], metadata={'specs': {'a': _spec('freq')}}).add()
         except Exception:
             pass
         q1 = bytes(SynthDef('pq', ns['fq']).as_bytes())
